@@ -260,7 +260,7 @@ func (w *widthAnalysis) counterMaxAt(v ssa.Value, at ssa.Instruction) (int64, bo
 			continue
 		}
 		for edge := 0; edge < 2; edge++ {
-			if !DominatedByEdge(f, at, blk, edge, PathQ{}) {
+			if !edgeHoldsAt(f, at, blk, edge) {
 				continue
 			}
 			u := int64(-1)
@@ -286,6 +286,23 @@ func (w *widthAnalysis) counterMaxAt(v ssa.Value, at ssa.Instruction) (int64, bo
 		}
 	}
 	return m, true
+}
+
+// edgeHoldsAt: the outcome of the test that ends blk is still the one of edge k when `at` runs. The test is of a value
+// that changes from one round of a loop to the next, so it is not enough that every path from the entry passes the edge
+// (the first round may have to, `if shift > 0 {…}` with shift starting at 0, and the rounds after it do not): there
+// must also be no way from the test to `at` that avoids the edge.
+func edgeHoldsAt(f *ssa.Function, at ssa.Instruction, blk *ssa.BasicBlock, k int) bool {
+	if !DominatedByEdge(f, at, blk, k, PathQ{}) {
+		return false
+	}
+	iff := blockIf(blk)
+	if iff == nil {
+		return false
+	}
+	q := PathQ{BlockEdge: func(from *ssa.BasicBlock, succ int) bool { return from == blk && succ == k }}
+	_, reach := CanReach(f, iff, func(in ssa.Instruction) bool { return in == at }, q)
+	return !reach
 }
 
 func (w *widthAnalysis) counterMax(v ssa.Value) (int64, bool) {
@@ -334,7 +351,7 @@ func (w *widthAnalysis) counterMax(v ssa.Value) (int64, bool) {
 			continue
 		}
 		for edge := 0; edge < 2; edge++ {
-			if !DominatedByEdge(f, incI, blk, edge, PathQ{}) {
+			if !edgeHoldsAt(f, incI, blk, edge) {
 				continue
 			}
 			op := bin.Op
@@ -369,6 +386,54 @@ func (w *widthAnalysis) counterMax(v ssa.Value) (int64, bool) {
 		}
 	}
 	if bound < 0 {
+		// the test made after the increment (`d.shift += 7` in push(), `if d.shift > 21 { error }` before going round): the
+		// incremented value is bounded on the way back into the loop, and so is the counter from then on
+		var back ssa.Instruction
+		for i, e := range phi.Edges {
+			if e == inc && i < len(phi.Block().Preds) {
+				if p := phi.Block().Preds[i]; len(p.Instrs) > 0 {
+					back = p.Instrs[len(p.Instrs)-1]
+				}
+			}
+		}
+		ub := int64(-1)
+		for _, blk := range f.Blocks {
+			iff := blockIf(blk)
+			if iff == nil || back == nil {
+				continue
+			}
+			bin, ok := stripConv(iff.Cond).(*ssa.BinOp)
+			if !ok || bin.X != inc {
+				continue
+			}
+			k, ok := constInt(bin.Y)
+			if !ok {
+				continue
+			}
+			for edge := 0; edge < 2; edge++ {
+				if !edgeHoldsAt(f, back, blk, edge) {
+					continue
+				}
+				u := int64(-1)
+				switch {
+				case bin.Op == token.LSS && edge == 0, bin.Op == token.GEQ && edge == 1:
+					u = k - 1
+				case bin.Op == token.LEQ && edge == 0, bin.Op == token.GTR && edge == 1:
+					u = k
+				case bin.Op == token.EQL && edge == 0, bin.Op == token.NEQ && edge == 1:
+					u = k
+				}
+				if u >= 0 && (ub < 0 || u < ub) {
+					ub = u
+				}
+			}
+		}
+		if ub >= 0 {
+			if ub < c0 {
+				return c0, true
+			}
+			return c0 + ((ub-c0)/step)*step, true
+		}
 		w.note = fmt.Sprintf("(the loop counter %s has no upper bound dominating its increment)", phi.Comment)
 		return 0, false
 	}
